@@ -1,16 +1,21 @@
 ----------------------------- MODULE RebaseGen -----------------------------
-(* E1 + E2 for C51: TLC enumerates every revision graph with up to MaxRev revisions and MaxParents parents per
-   revision, every (stop, onto) pair such that every revision matters (is an ancestor of stop or onto) and stop
-   has revisions of its own, and both skip_full_merged settings; checks the C51 laws on the transcribed planner
-   (for every set of already-present replacements a prefix of the plan) and exports the case table. *)
+(* E1 + E2 for C51: TLC enumerates every revision graph with MinRev..MaxRev revisions and at most MaxParents
+   parents per revision (optionally single-root only), every (stop, onto) pair such that every revision matters
+   (is an ancestor of stop or onto) and stop has revisions of its own (optionally only stop = newest revision),
+   and both skip_full_merged settings; checks the C51 laws on the transcribed planner (rebase_todo with no
+   replacement and with the first half of the plan's replacements present) and exports the case table. *)
 EXTENDS Rebase, Json, IOUtils, SequencesExt
-CONSTANTS MaxRev, MaxParents
+CONSTANTS MaxRev, MaxParents,    \* graphs with MinRev..MaxRev revisions, at most MaxParents ordered parents each
+          MinRev,
+          SingleRoot,             \* TRUE: only graphs whose single parentless revision is 1
+          StopNewest              \* TRUE: only cases whose stop revision (branch tip) is the newest revision
 \* every revision matters => the newest revision is stop or onto, so only those pairs are enumerated
-Pairs(n) == {<<n, t>> : t \in 1..(n - 1)} \cup {<<s, n>> : s \in 1..(n - 1)}
+Pairs(n) == {<<n, t>> : t \in 1..(n - 1)} \cup (IF StopNewest THEN {} ELSE {<<s, n>> : s \in 1..(n - 1)})
 Valid(x) == /\ Ancestry(x.P, x.stop) \cup Ancestry(x.P, x.onto) = DOMAIN x.P
             /\ TodoSet(x) # {}
+Graphs == {P \in UNION {Dags(n, MaxParents) : n \in MinRev..MaxRev} : SingleRoot => Roots(P) = {1}}
 ValidCases == UNION {{x \in {[P |-> P, stop |-> st[1], onto |-> st[2], skip |-> k] : st \in Pairs(Len(P)), k \in BOOLEAN} :
-                        Valid(x)} : P \in DagsUpTo(MaxRev, MaxParents)}
+                        Valid(x)} : P \in Graphs}
 VARIABLE c
 Init == c \in ValidCases
 Next == UNCHANGED c
@@ -18,18 +23,14 @@ Next == UNCHANGED c
 DonePrefixes(plan) == {{plan[j].new : j \in 1..k} : k \in {0, (Len(plan) + 1) \div 2}}
 LawsHoldOnSpec ==
     IF Unrelated(c) THEN TRUE
-    ELSE \A pr \in DonePrefixes(SpecPlan(c)) : LET o == SpecOut(c, pr) IN Failed(c, o) = {} /\ Conforms(c, o)
-\* anti-vacuity: the interesting plan shapes exist in the table.  WitnessSkipped is an invariant TLC must violate;
-\* the others are assumptions evaluated in the generating run itself (a false assumption fails the run).
+    ELSE LET plan == SpecPlan(c) IN
+         \A pr \in DonePrefixes(plan) : LET o == SpecOutOf(plan, pr) IN o.status = "ok" /\ Failed(c, o) = {}
+\* anti-vacuity: invariants TLC must violate (the harness additionally requires unrelated cases, merge entries and
+\* rewritten root revisions among the exported expected plans)
 HasSkipped(x)   == x.skip /\ ~Unrelated(x) /\ Keys(SpecPlan(x)) # TodoSet(x)
-HasMergeKept(x) == ~Unrelated(x) /\ \E e \in Entries(SpecPlan(x)) : Len(e.parents) > 1
 HasUntouched(x) == ~Unrelated(x) /\ \E e \in Entries(SpecPlan(x)) : \E p \in SeqRange(e.parents) : p # x.onto /\ p < NewBase
-HasRootInTodo(x) == ~Unrelated(x) /\ \E r \in TodoSet(x) : x.P[r] = <<>>
 WitnessSkipped == ~HasSkipped(c)
-ASSUME \E x \in ValidCases : HasMergeKept(x)
-ASSUME \E x \in ValidCases : HasUntouched(x)
-ASSUME \E x \in ValidCases : Unrelated(x)
-ASSUME \E x \in ValidCases : HasRootInTodo(x)
+WitnessUntouched == ~HasUntouched(c)
 \* exported expected result: "unrelated" or the specified plan
 Expected(x) == IF Unrelated(x) THEN [status |-> "unrelated"] ELSE [status |-> "ok", plan |-> SpecPlan(x)]
 Export == JsonSerialize(IOEnv.VF_OUT, SetToSeq({[c |-> x, spec |-> Expected(x)] : x \in ValidCases}))
